@@ -255,6 +255,34 @@ def pathMatches (pat : List Elem) (path : List Char) : Bool := !(sols pat path).
 /-- the reported values (greediest assignment) -/
 def bindings (pat : List Elem) (path : List Char) : Option Vals := (sols pat path).head?
 
+/-! #### the plain reading, for comparison
+
+On paths without empty segments the rule above is just: drop one trailing `/` if there is one, what
+remains is `/s1/…/sn`, and the parts consume `s1 … sn` from left to right (`C16_spec_is_plain_rule`). -/
+
+def plainSegs (path : List Char) : List Seg :=
+  strictSegs (if path.getLast? = some '/' then path.dropLast else path)
+
+def segPlain : List Elem → List Seg → Bool
+  | [], xs => xs.isEmpty
+  | .lit s :: ps, xs => match xs with
+      | x :: xs' => x == s && segPlain ps xs'
+      | [] => false
+  | .param _ :: ps, xs => match xs with
+      | x :: xs' => !x.isEmpty && segPlain ps xs'
+      | [] => false
+  | .opt _ :: ps, xs =>
+      segPlain ps xs || (match xs with
+        | _ :: xs' => segPlain ps xs'
+        | [] => false)
+  | .plus _ :: ps, xs => (splits xs).any (fun p => !p.1.isEmpty && segPlain ps p.2)
+  | .star _ :: ps, xs => (splits xs).any (fun p => segPlain ps p.2)
+
+def plainMatches (pat : List Elem) (path : List Char) : Bool := segPlain pat (plainSegs path)
+
+/-- no empty segment, i.e. no `//` in the path -/
+def clean (path : List Char) : Bool := (plainSegs path).all (fun x => !x.isEmpty)
+
 end Spec
 
 end Mpgs.Router
